@@ -1000,10 +1000,10 @@ func monC15(f *Facts, pre, post *Dump, ev XEvent, newEvents []Event, listed inte
 			if j.Started() && j.Start < j.Created {
 				vs = append(vs, Violation{Property: "C15", Rule: "timestamps", Norm: "start-before-created", Msg: fmt.Sprintf("job %d: start %v < created %v", j.Idx, j.Start, j.Created)})
 			}
-			if j.End >= 0 && j.Started() && j.End < j.Start {
+			if j.End != nilDur && j.Started() && j.End < j.Start {
 				vs = append(vs, Violation{Property: "C15", Rule: "timestamps", Norm: "end-before-start", Msg: fmt.Sprintf("job %d: end %v < start %v", j.Idx, j.End, j.Start)})
 			}
-			if j.End >= 0 && j.End < j.Created {
+			if j.End != nilDur && j.End < j.Created {
 				vs = append(vs, Violation{Property: "C15", Rule: "timestamps", Norm: "end-before-created", Msg: fmt.Sprintf("job %d: end %v < created %v", j.Idx, j.End, j.Created)})
 			}
 		}
